@@ -6,18 +6,20 @@ META = {
     "disabled": False,
     "level": "model_checking",
     "level_text": "WdtWdl.tla (over the shared ChunkFile.tla framing machine) models the WDT and WDL writers and readers chunk by chunk, the version "
-                  "rules (should_have_chunk, detect_version), the MAOF offset table, convert_wdt / convert_wdl_file and the tile<->world maps in exact "
-                  "arithmetic. TLC checks on a 2x2 grid, for every version, flag set and optional chunk, that the framing tiles the file, the reader "
-                  "returns what the writer was given, MAOF[y*N+x] is the header offset of that tile's MARE chunk, a second write is identical and "
-                  "conversions keep tile data; and the inverse law for all 4096 tiles. TLC then enumerates valid definitions (versions x map kind x "
-                  "flags x optional chunks x grid classes incl. single tiles at (1,0)/(0,1)/corners, rows, checkerboard, dense), the harness builds and "
-                  "round-trips them through the real crates, an independent chunk walker reads the produced bytes, and TLC validates every recorded "
-                  "event (framing, MAOF entries against per-tile payload tokens, per-section content tokens, byte-identical rewrite, conversions to "
-                  "every version, all 4096 coordinate pairs) against the specification.",
-    "level_note": "Payload bytes (heights, area ids, placements) are compared as tokens, not modelled. Definitions that validate() flags for their version "
-                  "(e.g. a Cataclysm terrain map carrying MWMO) are outside the domain. Chunk order/sizes, detected version and convert_wdt's chunk/flag "
-                  "effects are diagnostics (DRIFT), not verdicts. quick samples the shape space (deterministic slices + seed-rotated sample); thorough "
-                  "enumerates all light-grid shapes.",
+                  "rules (should_have_chunk, detect_version / WDL auto-detection with the pre-fix detection kept as a named deviation), the MAOF offset table, "
+                  "convert_wdt, convert_wdl_file, WdlFile::convert_to, conversion histories, and the tile<->world maps in exact arithmetic. TLC checks on a 2x2 grid, "
+                  "for every version, 15 flag sets and every optional chunk (structurally valid and invalid definitions), that the framing tiles the file, the reader "
+                  "returns what the writer was given, MAOF[y*N+x] is the header offset of that tile's MARE chunk, a second write with the RE-DETECTED version is "
+                  "identical, conversions and histories keep tile data; and the inverse law for all 4096 tiles. TLC then enumerates shapes (versions x map kind x "
+                  "optional chunks x list cardinalities x 21 grid classes; every header flag bit and bit pair x version x kind; conversion histories A->B->A / A->B->C "
+                  "through both WDL conversion APIs), the harness builds and round-trips them through the real crates -- conversions start from the PARSED file, the "
+                  "object at the end of every history is written, walked, parsed and rewritten like a built one --, an independent chunk walker reads the produced "
+                  "bytes, and TLC validates every recorded event (framing, MAOF entries against per-tile payload tokens, per-section content tokens, byte-identical "
+                  "rewrite, conversions to every version, histories, all 4096 coordinate pairs) against the specification.",
+    "level_note": "Payload bytes (heights, area ids, placements) are compared as tokens, not modelled. Domain: structurally valid definitions (chunk presence "
+                  "rules per map kind / version; MAID + flag 0x0200 only from BfA); header flags are free (validate() only warns). Chunk order/sizes, detected version and "
+                  "convert_wdt's chunk/flag effects are diagnostics (DRIFT), silenced where convert_wdl_file invents file names. quick samples bases x grids (slices + "
+                  "seed-rotated draws) and rotates a third of the flag pairs; thorough takes every base with 3 / 8 rotating grids and all flag pairs.",
     "technique": "TLA+ layout/state-machine specification (WdtWdl.tla + ChunkFile.tla) model-checked by TLC; TLC-enumerated shapes replayed on wow-wdt/wow-wdl; "
                  "trace validation by TLC",
     "design_ref": "DESIGN.md section 5, C13-C18 recipe and C18 paragraph",
@@ -75,14 +77,15 @@ def run(ctx, cases_override=None):
         "cases_generated_by_tlc": ncases,
         "evaluations": res["events"],
         "distinct_nontrivial": len(shapes),
-        "rule": "one shape = (format, version, grid class, flags, optional chunks and list cardinalities, parse mode); all shapes counted are distinct; "
+        "rule": "one shape = (format, version, grid class, flags, optional chunks and list cardinalities, parse mode); conversion-history traces are counted under their case; "
                 "plus 4096 coordinate pairs (exhaustive)",
         "exhaustive": False,
         "coordinates_exhaustive": kinds.get("Coord", 0) == 4096,
     }
-    assumptions = ["definitions are valid for their version (WdtFile::validate() reports nothing; WDL sections only where the version has them)",
+    assumptions = ["definitions are structurally valid for their version (MWMO / MODF / MAID presence rules; WDL sections only where the version has them); header flags are arbitrary",
                    "MPHD content = flag bits + the seven following u32 as the format interprets them (legacy fields or FileDataIDs)",
                    "MWMO names are non-empty NUL-free UTF-8 strings; height maps have 289+256 values",
+                   "holes are tile data only along histories whose every version carries MAHO; convert_wdl_file may refuse a step that would lose holes",
                    "forward coordinate map is compared within 0.01 yd; the inverse law is exact"]
     return core.finish(ctx, "model_checking", cov, assumptions, res["bad"], sig_fn=sig, trace=trace)
 
